@@ -230,12 +230,13 @@ def run_c05(t, tier, res):
 
 def read_list(path, enc):
     out = []
-    with open(path, "rb") as f:
-        for raw in f.read().split(b"\n"):
-            if raw == b"":
-                continue
-            v, p = raw.rsplit(b"\t", 1)
-            out.append((v.decode(enc, "surrogateescape"), float(p)))
+    from ..refmodel import _file_bytes
+    data, enc = _file_bytes(path, enc)          # (a codec with a signature marks the file once, at its start)
+    for raw in data.split(b"\n"):
+        if raw == b"":
+            continue
+        v, p = raw.rsplit(b"\t", 1)
+        out.append((v.decode(enc, "surrogateescape"), float(p)))
     return out
 
 
@@ -341,7 +342,9 @@ def check_ruleset_against_tally(rdir, enc, tally, opts, n_valid):
 
 
 def run_c06(t, tier, res):
-    flavour = {"nonascii": t.chance(1, 3), "sites": t.chance(1, 2), "nonbmp": t.chance(1, 8), "zoo": t.chance(1, 5), "large": t.chance(1, 30 if tier == "quick" else 8)}
+    enc = t.choice(["utf-8", "utf-8", "utf-8", "utf-8-sig", "iso-8859-1", "cp1251"])
+    flavour = {"nonascii": t.chance(1, 3), "sites": t.chance(1, 2), "nonbmp": enc.startswith("utf-8") and t.chance(1, 8),
+               "zoo": enc.startswith("utf-8") and t.chance(1, 5), "large": t.chance(1, 30 if tier == "quick" else 8), "encoding": enc}
     pws, opts = trainer.gen_list(t, flavour)
     if t.chance(1, 3):
         opts["coverage"] = round(t.between(1, 99) / 100.0, 2)
